@@ -82,15 +82,19 @@ def write_coqproject():
     return False
 
 
-def coq_build(jobs=16, timeout=5400):
-    """Full .vo build of the development (no -vos/-vok).  Returns (ok, log)."""
+def coq_build(jobs=16, timeout=5400, targets=None):
+    """Full .vo build (no -vos/-vok) of the whole development, or of the given
+    theories (with everything they import).  Returns (ok, log)."""
     changed = write_coqproject()
     mk = os.path.join(COQ, "Makefile.coq")
     if changed or not os.path.exists(mk):
         rc, out = run(["coq_makefile", "-f", "_CoqProject", "-o", "Makefile.coq"], cwd=COQ)
         if rc != 0:
             return False, out
-    rc, out = run(["make", "-f", "Makefile.coq", "-j%d" % jobs, "-k"], cwd=COQ, timeout=timeout)
+    cmd = ["make", "-f", "Makefile.coq", "-j%d" % jobs, "-k"]
+    if targets:
+        cmd += ["theories/%s.vo" % t for t in targets]
+    rc, out = run(cmd, cwd=COQ, timeout=timeout)
     return rc == 0, out
 
 
